@@ -34,7 +34,10 @@ THEOREMS = ["TLX.Props.C02Session." + t for t in (
     "session_total", "session_total_counterexample", "session_total_run", "wrong_keys_export_nothing",
     "key_epoch_tracks_sender", "cid_learning_client_initial", "cid_learning_server_initial", "direction_by_cid",
     "new_connection_id_direction", "retry_resets", "one_rtt_exact", "handshake_levels_exact",
-    "damaged_key_phase_advances_epoch")]
+    "damaged_key_phase_advances_epoch",
+    # pn-store repair (only an authenticated packet moves the largest packet number of its space)
+    "failed_packet_leaves_pn_table", "unauthenticated_step_leaves_pn_table", "wrong_keys_leave_pn_tables",
+    "damaged_packet_leaves_pn_table", "legacy_pn_poisoned", "fixed_pn_not_poisoned")]
 
 ERR = {"IndexError": "index", "KeyError": "key", "AttributeError": "attr", "UnboundLocalError": "unbound",
        "OverflowError": "overflow", "ValueError": "value", "TypeError": "type", "InvalidTag": "invalidtag",
@@ -705,6 +708,45 @@ def malformed_history(rng, idx):
     return S, out, S.keylog(drop), unbound
 
 
+# ---- an unauthenticated packet with a garbage packet number inside a conformant history ---------------------------
+def pn_poison_history(rng, idx):
+    """A conformant connection plus ONE packet that fails authentication and carries a far-away four-byte packet number,
+    followed by the rest of the conformant history:
+      kind 0  a damaged client/server 1-RTT packet (copy of the next genuine one of that direction: same DCID, key phase;
+              packet-number bytes and payload replaced) placed before a genuine 1-RTT packet that is not the last of its
+              direction;
+      kind 1  a client 0-RTT packet right after the ClientHello whose header protection was removed with the key of
+              another suite (garbage number, garbage payload) — the key log has the early secret, so the Early decryptor
+              exists and the AEAD check is reached.
+    Property (RFC 9000 A.3: largest_pn is the largest SUCCESSFULLY PROCESSED number; repair "only an authenticated QUIC
+    packet moves the largest packet number of its space"): every frame the senders sent is still exported."""
+    S, dg = valid_history(rng, idx)
+    far = lambda: bytes([rng.randrange(0x20, 0x100)]) + bytes(rng.randrange(256) for _ in range(3))
+    junk = lambda n: bytes(rng.randrange(256) for _ in range(n))
+    out, kind = list(dg), idx % 2
+    shorts = [i for i, d in enumerate(dg) if d[3] and d[3][0]["ht"] == "s"]
+    cand = [i for i in shorts if any(dg[j][0] == dg[i][0] for j in shorts if j > i)]
+    if kind == 0 and not cand:
+        kind = 1
+    if kind == 0:
+        k = rng.choice(cand)
+        fc, dcid, ver, specs, cut = dg[k]
+        bad = dict(specs[0])
+        bad["pn"] = far()
+        bad["fb"] = bytes([(bad["fb"][0] & 0xfc) | 3])
+        bad["pl"] = junk(rng.choice([16, 24, 60])) if rng.random() < 0.5 else bad["pl"][:-1] + bytes([bad["pl"][-1] ^ 0x80])
+        out.insert(k, (fc, dcid, ver, [bad], 1))
+    else:
+        pos = 3 if S.f["retry"] else 1
+        fc, dcid, ver, specs, cut = dg[pos - 1]
+        ini = specs[0]
+        pl = junk(rng.choice([20, 33, 80]))
+        bad = dict(ini, pt="z", fb=bytes([0xD3 if ver == 1 else 0xE3]), tlb=None, tok=None, lb=varint(4 + len(pl)),
+                   pn=far(), pl=pl, ts=ini["ts"])
+        out.insert(pos, (fc, dcid, ver, [bad], 1))
+    return S, out, kind
+
+
 # ============================================================================= the run
 def twin_check(ctx):
     rng = ctx.rng
@@ -757,6 +799,12 @@ def run_histories(ctx, impl, hists, point):
             ctx.hist(f"q2b.{tag}.exported_per_dgram", min(len([e for e in new.split("|") if e]), 5))
             if esc != "none":
                 break                                   # the real main loop would be dead here
+        if tag == "pnauth" and exported != S.expected:
+            ctx.fail("q2b-unauthenticated-packet-poisons-pn",
+                     "one packet that fails authentication (garbage packet number after header-protection removal with "
+                     "wrong keys / damage) makes the real QuicSession drop conformant packets that follow it",
+                     {"history": hi, "suite": hex(S.suite), "features": S.f, "lines": lines[-(len(dgs) + 8):]},
+                     expected=S.expected[:40], actual=exported[:40])
         if tag == "valid":
             exp = S.expected
             if not clean or exported != exp:
@@ -787,11 +835,12 @@ def run_histories(ctx, impl, hists, point):
             ctx.disagree(point, {"history": mt[0], "dgram": mt[1], "op": l[:2000]}, impl_s, model_s)
 
 
-def correspond(ctx, n_valid=None, n_malformed=None):
+def correspond(ctx, n_valid=None, n_malformed=None, n_pnauth=None):
     import logging
     logging.disable(logging.CRITICAL)
     n_valid = n_valid if n_valid is not None else ctx.n(400, 6000)
     n_malformed = n_malformed if n_malformed is not None else ctx.n(600, 9000)
+    n_pnauth = n_pnauth if n_pnauth is not None else ctx.n(200, 2000)
     twin_check(ctx)
     rng = ctx.rng
     with Impl() as impl:
@@ -808,11 +857,20 @@ def correspond(ctx, n_valid=None, n_malformed=None):
             S, dg, kl, unbound = malformed_history(rng, i)
             hm.append(("malformed", S, dg, kl, unbound))
         run_histories(ctx, impl, hm, "q2b.session.malformed")
+        hp = []
+        for i in range(n_pnauth):
+            S, dg, k = pn_poison_history(rng, i)
+            hp.append(("pnauth", S, dg, S.keylog(), True))
+            ctx.hist("q2b.pnauth.kind", ["damaged 1-RTT, far-away number", "wrong-key 0-RTT, garbage number"][k])
+        run_histories(ctx, impl, hp, "q2b.session.pnauth")
     ctx.rule = (ctx.rule + " " if ctx.rule else "") + (
         "q2b: every datagram of every history is one correspondence case (real QuicSession.handle_packet vs Lean "
         "Quic.Session.handlePacket over the shared toy instance); valid histories come from an independent toy-primitive "
         "RFC 9000/9001 sender (suites 0x1301-0x1304, v1/v2, Retry, 0-RTT, coalescing, pn gaps/lengths 1-4 inside the "
         "RFC window, NEW_CONNECTION_ID switches, key updates by either side), malformed ones mutate them (bad tags, "
         "flipped key phase, None fields, odd class/type combinations, missing key-log groups, lost/duplicated/reordered "
-        "datagrams, stray Retry/VN, handler exceptions, server-direction 0-RTT, over-long packet numbers).")
+        "datagrams, stray Retry/VN, handler exceptions, server-direction 0-RTT, over-long packet numbers); pnauth histories are "
+        "conformant ones with one deliberately placed packet that fails authentication and carries a far-away four-byte "
+        "packet number (damaged 1-RTT packet / 0-RTT packet unprotected with another suite's keys): everything the senders "
+        "sent must still be exported (signature q2b-unauthenticated-packet-poisons-pn).")
     return ctx.point("q2b.session.valid")["cases"], ctx.point("q2b.session.malformed")["cases"]
